@@ -10,19 +10,22 @@ UTC = timezone.utc
 T0 = datetime(2020, 1, 1, tzinfo=UTC)
 # exact duplicates arise because points draw from this small grid; adjacent microseconds and far-apart values
 TIMES = [T0 + timedelta(microseconds=i) for i in (0, 1, 2)] + [T0 + timedelta(days=d) for d in (-20000, -1, 1, 400)] + [T0 + timedelta(seconds=1, microseconds=999999)]
+# two instants that are the second 01:30 of a DST fold somewhere (New York 2021-11-07, London 2021-10-31)
+TIMES += [datetime(2021, 11, 7, 6, 30, tzinfo=UTC), datetime(2021, 10, 31, 1, 30, tzinfo=UTC)]
 OFFSETS = [UTC, timezone(timedelta(hours=5, minutes=45)), timezone(timedelta(hours=-8)), timezone(timedelta(hours=10, minutes=30))]
 MEAS = ["_default", "m1", "m2", "a,b", "mé", "m1 "]  # incl. a name that differs from another only by trailing white space
 TKEYS = ["a", "b", "t x"]
-TVALS = [None, "", "x", "X", "xy", "x\ny", "a,b", "x\u2028y", "x\x1dy\x85", '"q']
+TVALS = [None, "", "x", "X", "xy", "x\ny", "a,b", "x\u2028y", "x\x1dy\x85", '"q', "f_1"]  # incl. a value that looks like a (compact) field key
 FKEYS = ["a", "f", "_t"]
 FVALS = [None, 0, -0.0, 1, 2, -1.5, 2.0, math.inf]
+NAN = float("nan")  # as a comparison value only: every comparison with it is false, != is true
 REGEXES = ["x", "^x", ".*", "[xy]$", "X", "x.y", "^$", "m[12]", "a,"]
 REFLAGS = [0, 2, 16]  # none, IGNORECASE, DOTALL
 
 
 # sampling weights: common values repeated so that equality leaves hit often, rare/awkward values still occur
 W_MEAS = ["m1", "m1", "m1", "_default", "_default", "a,b", "m2", "mé", "m1 "]
-W_TVALS = [None, "", "x", "x", "x", "X", "xy", "xy", "x\ny", "a,b", "x\u2028y", "x\x1dy\x85", '"q']  # incl. a leading quote character and characters str.splitlines() breaks on but csv does not
+W_TVALS = [None, "", "x", "x", "x", "X", "xy", "xy", "x\ny", "a,b", "x\u2028y", "x\x1dy\x85", '"q', "f_1"]  # incl. a leading quote character and characters str.splitlines() breaks on but csv does not
 W_FVALS = [None, 0, -0.0, 1, 1, 1, 2, 2, -1.5, 2.0, math.inf]
 W_TKEYS = ["a", "a", "a", "b", "t x"]
 W_FKEYS = ["a", "a", "a", "f", "_t"]
@@ -91,7 +94,7 @@ def leaf(draw, time_pool=TIMES, allow_maps=True, allow_noop=True):
         elif attr == "tag":
             rhs = draw(st.sampled_from(W_TVALS))
         else:
-            rhs = draw(st.sampled_from(W_FVALS + [0.0, 1.0, -1, -2]))
+            rhs = draw(st.sampled_from(W_FVALS + [0.0, 1.0, -1, -2, NAN]))
         test = ["cmp", op, rhs]
     elif r < 13 and attr in ("tag", "field"):
         test = ["exists"]
